@@ -69,5 +69,15 @@ TEXT = {
                    "the mounting of both wrappers in cmd/main.go is the regenerated fact routeMounts.",
              note=_std_note + " HMAC-SHA-2 is an oracle (the harness computes whether a token's MAC matches the current secret); unforgeability is a cryptographic assumption. "
                   "Token verification itself lives in hagall-common and golang-jwt, outside /repo; it is modelled from reading and covered by the correspondence.", technique=_tech + " + auth side harness"),
+ 'C20': dict(level="Index completeness proved for the cell bookkeeping the grid code performs (Model/GridIndex.lean: the append loops, the four edge loops of mergeQuads, the slice "
+                   "growth of ExpandToFitPoint, GetRegion's cell walk), for all grids, spans and operation sequences: C20_register_complete, C20_reRegister_complete (whatever the old "
+                   "and new span, the moved plane ends registered in every cell of the new one; other planes untouched), C20_grow_keeps / _invents_nothing, C20_region_exactly_once, and "
+                   "C20_index_complete / C20_region_returns_each_once over every history of appends, moves and growths. The spans come out of float32 arithmetic, which Lean's kernel "
+                   "cannot reason about: the theorems' hypothesis on it (a growth shifts every span by the cells added, a move starts from the registered span) is checked on every "
+                   "explored history by ghost state in the float32 model (Model/Grid.lean), which itself is compared bit for bit with modules/dagaz after every operation. "
+                   "Footprint-vs-cell completeness in exact arithmetic, the centre ray, bounds and plane count are monitors on the real grid (measured, not proved). "
+                   "Primitives: exact-arithmetic laws proved over Int for the same polymorphic definitions (C20Prim); float32 tolerance against float64 references measured.",
+             note=_std_note + " Float32 is outside the kernel: everything that depends on rounding is differential testing (bit-exact) plus monitors. Retention across joins is the samples-lost monitor on the server harness.",
+             technique=_tech + " + bit-exact float32 grid replay + exact-arithmetic index monitors"),
 }
 NA = {}
